@@ -114,7 +114,20 @@ Section LexSim.
   Create HintDb lexsim discriminated.
   Hint Resolve mk_lex_rel pair_rel_intro s_peek_rel s_read_rune_rel eq_refl : lexsim.
 
-  (* ---------- the proof engine ---------- *)
+  (* ---------- the proof engine ----------
+     Every lemma below has the shape  REL (f o1 args1) (f o2 args2)  where REL is built from R,
+     lex_rel, eq, opt_rel and pair_rel along the result type of f (rel_of).  After unfolding f the
+     two sides are the same program text over o1 / o2.  `go` keeps all lexer states in field form
+     (mkLex s c p e on the left, mkLex t c p e on the right, with R s t in the context), so that every
+     condition is syntactically the same on both sides, and repeats:
+       - find the subterm that call-by-value evaluation reaches first on the left (work): the
+         scrutinee of the outermost match / bind;
+       - if it mentions neither o1 nor a lexer state, `destruct` it (both sides take the same branch);
+       - otherwise take a stream-dependent call inside it whose arguments are values (ready_call),
+         get its relational fact from the lemmas proved so far (hint database lexsim; this also
+         finds the o2-side call), abstract both calls and decompose the fact to fields (resolve,
+         break_rel);
+       - leaves are closed by reflexivity / the R hypotheses (finish). *)
 
   (* the relation that goes with a type mentioning S1 / lex S1 *)
   Ltac rel_of T :=
@@ -163,8 +176,6 @@ Section LexSim.
     | H : @eq (option _) ?x ?y |- _ => is_var x; is_var y; destruct x, y
     | H : @eq (_ * _)%type ?x ?y |- _ => is_var x; is_var y; destruct x, y
     end.
-
-  Ltac is_svar s := is_var s.
 
   (* the subterm of Y that is (convertible to) r, as it is written in Y *)
   Ltac find_o2 Y r :=
@@ -710,6 +721,23 @@ Proof.
   intros s1 s2 H1 H2 E k. rewrite !bufio_next_tokens_pure by assumption. rewrite E. reflexivity.
 Qed.
 
+(* all inputs x all ways of cutting them into non-empty reads, with any well-behaved ending
+   (exhaustion, explicit (0, io.EOF), last bytes together with io.EOF) *)
+Theorem bufio_tokens_chunkings : forall p1 e1 p2 e2,
+  Forall (fun bs => bs <> []) p1 -> well_behaved e1 ->
+  Forall (fun bs => bs <> []) p2 -> well_behaved e2 ->
+  concat p1 ++ data_of e1 = concat p2 ++ data_of e2 ->
+  bufio_tokens (chunked p1 e1) = bufio_tokens (chunked p2 e2) /\
+  bufio_tokens (chunked p1 e1) = tokenize (concat p1 ++ data_of e1).
+Proof.
+  intros p1 e1 p2 e2 H1 H2 H3 H4 E.
+  pose proof (chunked_well_behaved p1 e1 H1 H2) as W1.
+  pose proof (chunked_well_behaved p2 e2 H3 H4) as W2.
+  split.
+  - apply bufio_tokens_chunking; auto. rewrite !chunked_data. exact E.
+  - rewrite bufio_tokens_pure by exact W1. rewrite chunked_data. reflexivity.
+Qed.
+
 (* anything computed from the token stream alone (statements, EXPLAIN text, errors) *)
 Theorem bufio_tokens_any_function : forall (A : Type) (f : option (list item) -> A) s1 s2,
   well_behaved s1 -> well_behaved s2 -> data_of s1 = data_of s2 ->
@@ -781,6 +809,23 @@ Theorem lexrun_no_error_untracked : forall s k fuel items lx,
 Proof.
   intros s k fuel items lx H Hn. destruct (lexrun_tracked s k fuel items lx H) as (_ & Ht & _).
   rewrite Hn in Ht. unfold first_read_error in Ht.
+  destruct (read_errors (l_src lx)); [reflexivity|discriminate].
+Qed.
+
+(* a well-behaved reader never returns a non-EOF error, so nothing is ever tracked *)
+Lemma well_behaved_script_errs : forall s, well_behaved s -> script_errs s = [].
+Proof.
+  induction s as [|c r IH]; intros H; [reflexivity|].
+  apply well_behaved_cons in H. destruct H as (_ & Hok & Hr). specialize (IH Hr).
+  destruct c as [bs|e|bs e]; cbn [script_errs chunk_ok] in *; [exact IH| |];
+    apply andb_true_iff in Hok; destruct Hok as [He _]; cbn [err_list]; rewrite He, IH; reflexivity.
+Qed.
+
+Theorem lexrun_well_behaved_untracked : forall s k fuel items lx,
+  well_behaved s -> lexrun s k fuel = Some (items, lx) -> tracked_err (l_src lx) = None.
+Proof.
+  intros s k fuel items lx Hwb H. destruct (lexrun_tracked s k fuel items lx H) as (_ & Ht & Hs).
+  rewrite (well_behaved_script_errs s Hwb) in Hs. rewrite Ht. unfold first_read_error.
   destruct (read_errors (l_src lx)); [reflexivity|discriminate].
 Qed.
 
